@@ -125,6 +125,7 @@ type FnTrans struct {
 	curState *BState
 	curEnv   *Env
 	idxCands []Val
+	floatUsed bool
 	usedGlobalInvs map[string]Clause
 	modAllowed []string
 	heapAnc  map[string][]*frameFact
@@ -294,12 +295,20 @@ func (tr *FnTrans) constVal(c *ssa.Const) Val {
 		case u.Info()&types.IsString != 0:
 			return Val{T: tr.smt.strLit(constant.StringVal(c.Value)), Ty: t}
 		case u.Info()&(types.IsFloat|types.IsComplex) != 0:
-			name := "f64c_" + sanitize(c.Value.ExactString())
-			if !tr.smt.ufs[name] {
-				tr.smt.ufs[name] = true
-				tr.smt.prelude = append(tr.smt.prelude, fmt.Sprintf("(declare-const %s F64)", name))
+			// floating point is modelled with real arithmetic (listed assumption)
+			fv := constant.ToFloat(c.Value)
+			if fv.Kind() == constant.Float {
+				num, den := constant.Num(fv), constant.Denom(fv)
+				ns, ds := num.ExactString(), den.ExactString()
+				neg := strings.HasPrefix(ns, "-")
+				ns = strings.TrimPrefix(ns, "-")
+				term := fmt.Sprintf("(/ %s.0 %s.0)", ns, ds)
+				if neg {
+					term = "(- " + term + ")"
+				}
+				return Val{T: term, Ty: t}
 			}
-			return Val{T: name, Ty: t}
+			return Val{T: tr.smt.fresh("fconst", "F64"), Ty: t}
 		}
 	}
 	panic(unsupported("constant of type " + t.String()))
@@ -657,6 +666,18 @@ func (tr *FnTrans) conv(x Val, to types.Type) string {
 		return n
 	case ts == "Str" && isInteger(from):
 		return tr.smt.fresh("i2s", "Str")
+	case fs == "F64" && ts == "F64":
+		return x.T
+	case ts == "F64" && isInteger(from):
+		tr.floatUsed = true
+		return fmt.Sprintf("(to_real %s)", tr.toMathInt(x))
+	case fs == "F64" && isInteger(to):
+		tr.floatUsed = true
+		trunc := fmt.Sprintf("(ite (>= %s 0.0) (to_int %s) (- (to_int (- %s))))", x.T, x.T, x.T)
+		if tr.smt.intMode {
+			return tr.wrapInt(trunc, to)
+		}
+		return fmt.Sprintf("((_ int2bv %d) %s)", intWidth(to), trunc)
 	case ts == "F64" || fs == "F64":
 		name := "conv_" + sanitize(fs) + "_" + sanitize(ts)
 		tr.smt.declareFun(name, []string{fs}, ts)
@@ -677,6 +698,18 @@ func (tr *FnTrans) conv(x Val, to types.Type) string {
 		}
 	}
 	panic(unsupported(fmt.Sprintf("conversion %s -> %s", from, to)))
+}
+
+// toMathInt renders a machine integer as an SMT Int term.
+func (tr *FnTrans) toMathInt(x Val) string {
+	if tr.smt.intMode || x.Ty == tyMath {
+		return x.T
+	}
+	w := intWidth(x.Ty)
+	if isUnsigned(x.Ty) {
+		return fmt.Sprintf("(bv2nat %s)", x.T)
+	}
+	return fmt.Sprintf("(ite (bvslt %s %s) (- (bv2nat %s) %s) (bv2nat %s))", x.T, tr.smt.intLit(big.NewInt(0), w), x.T, new(big.Int).Lsh(big.NewInt(1), uint(w)).String(), x.T)
 }
 
 func (tr *FnTrans) boolNot(x string) string {
@@ -972,18 +1005,12 @@ func (tr *FnTrans) binop(op token.Token, x, y Val, resTy types.Type, st *BState,
 			}
 		}
 	case "F64":
-		name := "f64_" + sanitize(op.String())
-		ret := "F64"
-		switch op {
-		case token.LSS, token.LEQ, token.GTR, token.GEQ:
-			ret = "Bool"
-		}
-		name = map[token.Token]string{token.ADD: "f64_add", token.SUB: "f64_sub", token.MUL: "f64_mul", token.QUO: "f64_div", token.LSS: "f64_lt", token.LEQ: "f64_le", token.GTR: "f64_gt", token.GEQ: "f64_ge"}[op]
-		if name == "" {
+		sym := map[token.Token]string{token.ADD: "+", token.SUB: "-", token.MUL: "*", token.QUO: "/", token.LSS: "<", token.LEQ: "<=", token.GTR: ">", token.GEQ: ">="}[op]
+		if sym == "" {
 			panic(unsupported("float operator " + op.String()))
 		}
-		tr.smt.declareFun(name, []string{"F64", "F64"}, ret)
-		return fmt.Sprintf("(%s %s %s)", name, x.T, y.T)
+		tr.floatUsed = true
+		return fmt.Sprintf("(%s %s %s)", sym, x.T, y.T)
 	case "Bool":
 		switch op {
 		case token.AND, token.LAND:
